@@ -99,6 +99,105 @@ Theorem c05_session_no_panic : forall vs, Forall (fun o => o <> Panic) (csv_sess
 Proof. exact csv_session_no_panic. Qed.
 Print Assumptions c05_session_no_panic.
 
+(* ANY DESTINATION (Model/CsvWriter.v).  RenderTo takes an io.Writer: a state
+   machine which, offered a payload, takes the first n bytes and says whether
+   the call failed.  For EVERY such machine that honours the io.Writer contract
+   (n <= len p; an error whenever n < len p), in every state, and every table:
+   when RenderTo returns nil, what the destination holds parses back to exactly
+   the table. *)
+From Tab Require Import Model.CsvWriter Proofs.CsvWriterProofs.
+
+Theorem c05_any_writer : forall (St : Type) (wr : St -> list N -> St * nat * bool),
+  honours_contract St wr -> forall v s s1 acc,
+  csv_render_to_wr St wr v s = (s1, acc, Ok tt) ->
+  parse_csv acc = Some (map (pad_to (v_ncols v)) (csv_records v))
+  /\ Forall (fun r => length r = v_ncols v) (map (pad_to (v_ncols v)) (csv_records v)).
+Proof. exact csv_writer_roundtrip. Qed.
+Print Assumptions c05_any_writer.
+
+(* A Write that fails - whatever the error, however much of the payload was
+   taken - makes RenderTo fail; nothing is offered again. *)
+Theorem c05_failed_write_fails : forall (St : Type) (wr : St -> list N -> St * nat * bool) v s s1 acc,
+  (let '(ws, _) := csv_render_to_tr v in wr_run St wr s ws = (s1, acc, false)) ->
+  csv_render_to_wr St wr v s = (s1, acc, Err).
+Proof. exact csv_render_to_wr_fault. Qed.
+Print Assumptions c05_failed_write_fails.
+
+(* Whatever the outcome, the destination holds a prefix of the text a buffer
+   would have been given. *)
+Theorem c05_writer_prefix : forall (St : Type) (wr : St -> list N -> St * nat * bool),
+  honours_contract St wr -> forall v s s1 acc r,
+  csv_render_to_wr St wr v s = (s1, acc, r) ->
+  exists rest, concat (fst (csv_render_to_tr v)) = acc ++ rest.
+Proof. exact csv_writer_prefix. Qed.
+Print Assumptions c05_writer_prefix.
+
+Theorem c05_writer_no_panic : forall (St : Type) (wr : St -> list N -> St * nat * bool) v s,
+  snd (csv_render_to_wr St wr v s) <> Panic.
+Proof. exact csv_writer_no_panic. Qed.
+Print Assumptions c05_writer_no_panic.
+
+(* The destination with room for b more bytes (the one the correspondence check
+   runs): however the text is cut into writes it ends up holding the first b
+   bytes of it, and the render goes through exactly when everything fits. *)
+Theorem c05_limited_room : forall v b,
+  let '(ws, e) := csv_render_to_tr v in
+  csv_render_to_budget v b = (firstn b (concat ws), if length (concat ws) <=? b then e else Err).
+Proof. exact csv_budget_spec. Qed.
+Print Assumptions c05_limited_room.
+
+(* non-vacuity: a two-column table whose text is 18 bytes; room for 18 gives the
+   table, room for 7 stops inside the second field with an error *)
+Example c05_writer_example :
+  let c s := mkVCell s false None 0 0 false in
+  let v := mkView 2%nat (Some [c [104%N]; c [34%N]]) [Some [c [97%N]]] [None;None;None] [None;None;None] in
+  (exists acc, csv_render_to_budget v 18 = (acc, Ok tt) /\ parse_csv acc = Some [[[104%N]; [34%N]]; [[97%N]; []]])
+  /\ csv_render_to_budget v 7 = ([34%N; 104%N; 34%N; 44%N; 34%N; 34%N; 34%N], Err)
+  /\ honours_contract nat budget_wr.
+Proof.
+  cbv zeta. split; [eexists; split; vm_compute; reflexivity|]. split; [vm_compute; reflexivity|exact budget_contract].
+Qed.
+
+(* STATE THAT IS NOT CONTENT (Model/CsvMeta.v).  Histories that also set a
+   column record's Name, properties of the application's on the table / a
+   column / a row / a cell, and errors parked on the table: whenever rendering
+   succeeds the strict parser reads back exactly the records of the BUILDING
+   calls - the header row as AddHeaders left it, padded with EMPTY fields - and
+   two histories with the same building calls render the same. *)
+From Tab Require Import Model.CsvMeta Proofs.CsvMetaProofs.
+
+Theorem c05_meta_history : forall (W : list N -> nat) (e : env) (json : item -> option (list N)) (h : list mop) out,
+  twf_hist (m_tops h) -> csv_render_mt W e json (mt_run h) = Ok out ->
+  parse_csv out = Some (map (pad_to (hist_ncols (m_tops h))) (map (map (documented_text e)) (hist_records (m_tops h))))
+  /\ Forall (fun r => length r = hist_ncols (m_tops h))
+            (map (pad_to (hist_ncols (m_tops h))) (map (map (documented_text e)) (hist_records (m_tops h)))).
+Proof. exact csv_meta_history. Qed.
+Print Assumptions c05_meta_history.
+
+Theorem c05_meta_succeeds : forall W e json (h : list mop),
+  twf_hist (m_tops h) -> 1 <= hist_ncols (m_tops h) -> exists out, csv_render_mt W e json (mt_run h) = Ok out.
+Proof. exact csv_meta_succeeds. Qed.
+Print Assumptions c05_meta_succeeds.
+
+Theorem c05_meta_not_content : forall W e json (h1 h2 : list mop),
+  m_tops h1 = m_tops h2 -> csv_render_mt W e json (mt_run h1) = csv_render_mt W e json (mt_run h2).
+Proof. exact csv_meta_not_content. Qed.
+Print Assumptions c05_meta_not_content.
+
+(* non-vacuity: a one-cell header, a two-cell row, then column 2 is given a
+   Name (it is there to be read) - the header record still ends in an empty field *)
+Example c05_meta_example :
+  let e : env := fun _ => mkObj None None None None None [] None in
+  let h := [MTop (TCore (AddHeaders [IString [104%N]])); MTop (TCore (AddRowItems [IRune 34; IString [98%N]]));
+            MColName 2 [112%N]; MSetProp (OColumn 2) 7%N (Some [113%N]); MAddError [114%N]] in
+  twf_hist (m_tops h) /\ mt_name (mt_run h) 2 = [112%N]
+  /\ exists out, csv_render_mt (@length N) e (fun _ => None) (mt_run h) = Ok out
+       /\ parse_csv out = Some [[[104%N]; []]; [[34%N]; [98%N]]].
+Proof.
+  cbv zeta. split; [apply twf_histb_sound; vm_compute; reflexivity|]. split; [vm_compute; reflexivity|].
+  eexists. split; vm_compute; reflexivity.
+Qed.
+
 (* A render that fails PART-WAY: when the first record that does not fit comes
    after records that do (a row that another table widened; any view with a row
    longer than the column count), RenderTo has by then written exactly those
